@@ -7,11 +7,11 @@ claim("C01",
       MODEL + FMT + "More than 3 distinct option numbers, value contents beyond one symbolic byte pattern, and the ordering done by std's BTreeMap are outside.",
       "Kani/CBMC bounded model checking of to_bytes_internal against an RFC-derived reference encoder", "DESIGN.md section 3 C01")
 claim("C02",
-      "Composition (D) C03 framing equality of every accepted datagram up to 7 bytes with the reference parse and content equality on single-option layouts + (E) C01 exact image of every structured message, plus direct parse->serialise queries on concrete layouts with all free bits symbolic (one option with extended delta and payload; lone trailing marker; payload of a 0.00 message; all four types).",
+      "Composition (D) C03 framing equality of every accepted datagram up to 6 bytes (7 thorough) with the reference parse and content equality on single-option layouts + (E) C01 exact image of every structured message, plus direct parse->serialise queries on concrete layouts with all free bits symbolic (one option with extended delta and payload; lone trailing marker; payload of a 0.00 message; all four types).",
       MODEL + FMT + "The direct query over every byte string does not fit (out of memory at 6 bytes); the general claim rests on the composition and on the uniqueness of the RFC 7252 delta/length encoding.",
       "Kani/CBMC bounded model checking; composition of C03 and C01 plus direct re-encode on concrete layouts", "DESIGN.md section 3 C02")
 claim("C03",
-      "Every byte string of length 0..8 is decided against a three-valued RFC 7252 reference parser: no panic/overflow/out-of-bounds read (Kani's implicit checks), must-reject => Err, must-accept => Ok; framing equality (numbers, lengths, counts, payload range) for every string up to 7 bytes; byte-for-byte content equality on concrete single-option layouts reaching one- and two-byte extended deltas and a one-byte extended length. 11 bytes (verdict) and 8 bytes (framing) in the thorough tier.",
+      "Every byte string of length 0..7 (quick; 0..8 thorough) is decided against a three-valued RFC 7252 reference parser: no panic/overflow/out-of-bounds read (Kani's implicit checks), must-reject => Err, must-accept => Ok; framing equality (numbers, lengths, counts, payload range) for every string up to 6 bytes (7 thorough); byte-for-byte content equality on concrete single-option layouts reaching one- and two-byte extended deltas and a one-byte extended length. The thorough tier adds the 8-byte verdict and 7-byte framing harnesses (20 minutes, 22 GB each).",
       MODEL + FMT + "Datagrams longer than the bound are outside; that 8 bytes exercise the loop body from every loop state is an argument, not a query.",
       "Kani/CBMC bounded model checking of Packet::from_bytes against a three-valued reference parser", "DESIGN.md section 3 C03")
 claim("C04",
@@ -59,7 +59,7 @@ claim("C15",
       MODEL + FMT + "2^32 rounds on one resource (sequence wrap) are outside.",
       "Kani/CBMC bounded model checking, one inductive step per operation from an arbitrary pre-state", "DESIGN.md section 3 C15")
 claim("C17",
-      "One step of each scanner (link parser, attribute parser, Unquote) from every remaining ASCII input of 0..4 bytes: no panic, yielded slices inside the input and in order, remaining input a strictly shorter suffix - induction over the suffix gives termination, ordering and nothing-after-error; to_cow() = character iteration for every ASCII string of 0..3 bytes.",
+      "One step of each scanner (link parser, Unquote: every remaining ASCII input of 0..4 bytes; attribute parser: 0..3 bytes quick, 0..4 thorough): no panic, yielded slices inside the input and in order, remaining input a strictly shorter suffix - induction over the suffix gives termination, ordering and nothing-after-error; to_cow() = character iteration for every ASCII string of 0..3 bytes.",
       "Non-ASCII input and longer strings are outside; runs on the real core::str / core::fmt code.",
       "Kani/CBMC bounded model checking, one scanner step from an arbitrary remaining input", "DESIGN.md section 3 C17")
 claim("C18",
